@@ -225,7 +225,21 @@ def mutate (tx : CTx H) (ws : List (Option Script)) : List String → Option (CT
       | none => none
     | _, _ => none
   | ["wsdrop", i] => (nat? i).map fun i => (tx, ws.set i none)
+  | ["retpl", i, kind] =>
+    -- replace output i (script_pubkey and witness script) by another to_remote form, same value
+    match nat? i with
+    | some i =>
+      match tx.outputs[i]? with
+      | some o =>
+        if kind == "remoteA" then
+          some ({ tx with outputs := tx.outputs.set i { o with spk := .p2wsh (.toRemoteDelayed 5) } }, ws.set i (some (.toRemoteDelayed 5)))
+        else if kind == "wpkh" then
+          some ({ tx with outputs := tx.outputs.set i { o with spk := .p2wpkh 5 } }, ws.set i none)
+        else none
+      | none => none
+    | none => none
   | ["wslen"] => some (tx, ws.dropLast)
+  | ["wsadd"] => some (tx, ws ++ [some (.unknown 1)])
   | _ => none
 
 def step (st : St) (toks : List String) : St × String :=
